@@ -195,6 +195,10 @@ impl<'tcx> Ctx<'tcx> {
             if let Some(p) = uv.promoted {
                 let _ = write!(out, ",\"promoted\":{}", p.as_usize());
             }
+            // byte tables (`const CODE: [u8; 4] = *b"01zx"`): show the bytes
+            if let Some(bytes) = self.u8_array_bytes(owner, c) {
+                let _ = write!(out, ",\"bytes\":{}", js(&String::from_utf8_lossy(&bytes)));
+            }
             // still try to show a scalar value
             let env = TypingEnv::post_analysis(tcx, owner);
             if ty.is_integral() || ty.is_bool() || ty.is_char() {
@@ -236,6 +240,34 @@ impl<'tcx> Ctx<'tcx> {
             v2.truncate(200);
         }
         let _ = write!(out, "{{\"v\":{},\"ty\":{}}}", js(&v2), js(&tystr(ty)));
+    }
+
+    /// contents of a constant of type `[u8; N]` (N <= 64), if it can be evaluated
+    fn u8_array_bytes(&self, owner: DefId, c: &ConstOperand<'tcx>) -> Option<Vec<u8>> {
+        let tcx = self.tcx;
+        let ty = c.const_.ty();
+        let n = match ty.kind() {
+            ty::Array(elem, len) if *elem == tcx.types.u8 => len.try_to_target_usize(tcx)?,
+            _ => return None,
+        };
+        if n == 0 || n > 64 {
+            return None;
+        }
+        let env = TypingEnv::post_analysis(tcx, owner);
+        let val = c.const_.eval(tcx, env, c.span).ok()?;
+        match val {
+            ConstValue::Indirect { alloc_id, offset } => {
+                let alloc = tcx.global_alloc(alloc_id).unwrap_memory();
+                let start = offset.bytes() as usize;
+                let end = start + n as usize;
+                let inner = alloc.inner();
+                if end > inner.len() {
+                    return None;
+                }
+                Some(inner.inspect_with_uninit_and_ptr_outside_interpreter(start..end).to_vec())
+            }
+            _ => None,
+        }
     }
 
     fn operand(&self, owner: DefId, body: &Body<'tcx>, o: &Operand<'tcx>, out: &mut String) {
